@@ -96,7 +96,20 @@ def main(tier):
             doc = refkeys.derive(doc, p, True)[0]
             asb = refkeys.derive(asb, p, False)[0]
         if got_priv != refkeys.priv_der(doc):
-            kind = "ikm-not-clamped" if got_priv == refkeys.priv_der(asb) else "private-differs-from-documented-algorithm"
+            # D21 is a defect of ONE call site (the input key material of each derivation step is the stored secret, not
+            # the clamped one): a result is an occurrence of it when it is the documented derivation with the unclamped
+            # input at one or more of its steps - whichever steps (a parent that happens to be stored clamped makes its
+            # step coincide with the documented one)
+            import itertools
+            variants = {refkeys.priv_der(asb)}
+            for choice in itertools.product((True, False), repeat=len(paths)):
+                if all(choice) or not any(choice) or got_priv in variants:
+                    continue
+                k = rootpriv
+                for p, cl in zip(paths, choice):
+                    k = refkeys.derive(k, p, cl)[0]
+                variants.add(refkeys.priv_der(k))
+            kind = "ikm-not-clamped" if got_priv in variants else "private-differs-from-documented-algorithm"
             if v.violation(dict(rec, kind=kind), dict(args=args, got=got_priv.hex(), documented=refkeys.priv_der(doc).hex(),
                                                        unclamped_variant=refkeys.priv_der(asb).hex())) is False:
                 known_hits += 1
